@@ -1,0 +1,31 @@
+//go:build verif
+
+package safedetails
+
+// Contracts for the deductive verifier in /verif (comment-only file; see /verif/DESIGN.md).
+
+//@ type withSafeDetails invariant self.cause != nil
+//@ method (*withSafeDetails).Error
+//@   props C10
+//@   ensures result == msg(self.cause)
+//@ method (*withSafeDetails).Cause
+//@   props C07 C10 C14
+//@   ensures result == self.cause
+//@ method (*withSafeDetails).Unwrap
+//@   props C07 C10 C14
+//@   ensures result == self.cause
+
+//@ method (*withSafeDetails).SafeDetails
+//@   props C03 C11 C12
+//@   ensures result == self.safeDetails
+
+//@ func WithSafeDetails
+//@   props C10 C07
+//@   ensures err == nil ==> result == nil
+//@   ensures (err != nil && len(format) == 0 && len(args) == 0) ==> result == err
+//@   ensures (err != nil && !(len(format) == 0 && len(args) == 0)) ==> typeis(result, *withSafeDetails) && result.(*withSafeDetails).cause == err && len(result.(*withSafeDetails).safeDetails) == 1
+
+//@ func decodeWithSafeDetails
+//@   props C05 C01 C11
+//@   requires cause != nil
+//@   ensures typeis(result, *withSafeDetails) && result.(*withSafeDetails).cause == cause && result.(*withSafeDetails).safeDetails == safeDetails
